@@ -17,7 +17,7 @@ package utils
 //@   pure
 //@   let q = ctx.Request().URI().QueryArgs()
 //@   ensures {C02} [definition] ret0 <==> (ctx.Method() == "PUT" && len(strings.Split(ctx.Path(), "/")) >= 3 \
-//@        && !q.Has("tagging") && ctx.Get("X-Amz-Copy-Source") == "" && !q.Has("acl"))
+//@        && !q.Has("tagging") && ctx.Get("X-Amz-Copy-Source") == "" && !q.Has("acl") && !q.Has("retention") && !q.Has("legal-hold"))
 //@ func IsSpecialPayload
 //@   pure
 //@ func IsStreamingPayload
